@@ -29,8 +29,13 @@ package c01
 
 import (
 	"context"
+	"crypto"
+	"crypto/ecdsa"
+	"crypto/ed25519"
+	"crypto/elliptic"
 	crand "crypto/rand"
 	"crypto/rsa"
+	"crypto/sha256"
 	"crypto/x509"
 	"crypto/x509/pkix"
 	"encoding/asn1"
@@ -138,6 +143,12 @@ type certCase struct {
 
 var certFeats = []string{"plain", "unknown-critical-ext", "two-unknown-critical-ext", "unknown-noncritical-ext", "eku-client-auth-only",
 	"unknown-critical-ext+eku-client-auth-only", "unknown-eku-oid", "ca-flag-on-leaf", "no-key-usage", "unknown-critical-ext+no-key-usage"}
+
+// certKeyFeats: the signer certificate carries a key that is not an RSA key (round 7, C01-r7m1: a hand-written PSS check that
+// type-switches on the key and has no default branch accepts such a certificate with any signature). The certificate is issued
+// like any other; the signature is a GENUINE signature of the payload under that key (ECDSA over SHA-256 in ASN.1, Ed25519),
+// the most an attacker holding such a certificate can offer. No RSA-PSS signature exists for a non-RSA key: never authentic.
+var certKeyFeats = []string{"key-ecdsa-p256", "key-ecdsa-p384", "key-ed25519"}
 var certIssuers = []string{"callers-root", "foreign-root", "self-signed", "intermediate"}
 var certValidity = []string{"current", "run-out", "not-begun"}
 
@@ -147,6 +158,15 @@ func (w *world) certCases(c *core.Ctx) []certCase {
 		for _, is := range certIssuers[:3] {
 			for _, v := range certValidity {
 				out = append(out, certCase{f, is, v, "genuine", "mid", "good"})
+			}
+		}
+	}
+	for _, f := range certKeyFeats { // not drawn below: the drawn cases stay what they were
+		for _, is := range []string{"callers-root", "intermediate", "foreign-root"} {
+			for _, v := range certValidity {
+				for _, roots := range []string{"genuine", "genuine+inter"} {
+					out = append(out, certCase{f, is, v, roots, "mid", "good"})
+				}
 			}
 		}
 	}
@@ -164,7 +184,7 @@ func (w *world) certCases(c *core.Ctx) []certCase {
 var privateOID = asn1.ObjectIdentifier{1, 3, 6, 1, 4, 1, 11129, 2, 99}
 
 // mintFeatured makes a signer certificate with the drawn contents. Keys are the run's keys; only the certificate is new.
-func (w *world) mintFeatured(cc certCase, serial int64) *gen.Identity {
+func (w *world) mintFeatured(cc certCase, serial int64) (*gen.Identity, crypto.Signer) {
 	p := w.pki
 	nb, na := w.nb, w.nb.AddDate(5, 0, 1)
 	switch cc.validity {
@@ -197,6 +217,26 @@ func (w *world) mintFeatured(cc certCase, serial int64) *gen.Identity {
 		}
 	}
 	key := p.Signer2.Key
+	var pub any = &key.PublicKey
+	var other crypto.Signer // the non-RSA key of a key-* case
+	switch cc.feat {
+	case "key-ecdsa-p256", "key-ecdsa-p384":
+		curve := elliptic.P256()
+		if cc.feat == "key-ecdsa-p384" {
+			curve = elliptic.P384()
+		}
+		k, err := ecdsa.GenerateKey(curve, crand.Reader)
+		if err != nil {
+			panic(err)
+		}
+		other, pub = k, &k.PublicKey
+	case "key-ed25519":
+		pk, k, err := ed25519.GenerateKey(crand.Reader)
+		if err != nil {
+			panic(err)
+		}
+		other, pub = k, pk
+	}
 	var parent *x509.Certificate
 	var signKey *rsa.PrivateKey
 	switch cc.issuer {
@@ -209,7 +249,7 @@ func (w *world) mintFeatured(cc certCase, serial int64) *gen.Identity {
 	default:
 		parent, signKey = t, key
 	}
-	der, err := x509.CreateCertificate(crand.Reader, t, parent, &key.PublicKey, signKey)
+	der, err := x509.CreateCertificate(crand.Reader, t, parent, pub, signKey)
 	if err != nil {
 		panic(err)
 	}
@@ -217,13 +257,29 @@ func (w *world) mintFeatured(cc certCase, serial int64) *gen.Identity {
 	if err != nil {
 		panic(err)
 	}
-	return &gen.Identity{Key: key, Cert: crt}
+	return &gen.Identity{Key: key, Cert: crt}, other
 }
 
 func (a *audit) runCert(i, k int, cc certCase, r *rand.Rand, ents []entry) {
 	w, c := a.w, a.c
-	id := w.mintFeatured(cc, 1000+int64(k))
+	id, other := w.mintFeatured(cc, 1000+int64(k))
 	e := gen.Endorse(id, w.g0)
+	if other != nil { // genuinely signed with the certificate's own, non-RSA key
+		var opt crypto.SignerOpts = crypto.SHA256
+		msg := e.SerializedUefiGolden
+		if _, isEd := other.(ed25519.PrivateKey); isEd {
+			opt = crypto.Hash(0)
+		} else {
+			d := sha256.Sum256(msg)
+			msg = d[:]
+		}
+		sig, err := other.Sign(crand.Reader, msg, opt)
+		if err != nil {
+			panic(err)
+		}
+		e.Signature = sig
+		c.Count("cert: cases with a non-RSA signer key, signed with that key", 1)
+	}
 	if cc.sig == "flipped" {
 		e.Signature = flipBit(e.Signature, r.IntN(len(e.Signature)), uint(r.IntN(8)))
 	}
